@@ -447,6 +447,8 @@ class S:
     __rmul__ = __mul__
 
     def __truediv__(s, o):
+        if isinstance(o, (float, _np.floating)) and math.isinf(float(o)):
+            return S(0)          # finite / inf
         o = S.lift(o)
         if o is None:
             return NotImplemented
